@@ -449,7 +449,17 @@ def batch_cases(draw):
     if t == "layer":
         return dict(draw(c05.cases()), type="layer")
     if t == "diagram":
-        return dict(draw(c07.cases()), type="diagram")
+        if draw(st.booleans()):
+            return dict(draw(c07.cases()), type="diagram")
+        # many drawn arrows, few realised: several generated rules are violated at once and their blocks have to come out
+        # in the same order whatever the hash seed
+        names = draw(st.lists(st.sampled_from(["k1", "k2", "k3", "a", "ab", "b", "core", "util", "svc"]), min_size=3, max_size=7, unique=True))
+        tree = sorted(M.closure({c07.BASE}) | {f"{c07.BASE}.{c}" for c in names})
+        pairs = [(a, b) for a in names for b in names if a != b]
+        arrows = draw(st.lists(st.sampled_from(pairs), min_size=len(names), max_size=min(len(pairs), 12), unique=True))
+        imports = draw(st.lists(st.sampled_from([(f"{c07.BASE}.{a}", f"{c07.BASE}.{b}") for a, b in pairs]), max_size=3, unique=True))
+        return {"type": "diagram", "tree": tree, "imports": [list(e) for e in imports], "components": names,
+                "arrows": [list(a) for a in arrows], "should_only": draw(st.booleans())}
     tree = draw(PS.with_imports(draw(PS.project_trees(max_depth=3)), extra_targets=["os.path", "logging.handlers", "xml.etree.ElementTree"]))
     tree["type"] = "scan"
     tree["include_external"] = draw(st.booleans())
